@@ -33,8 +33,9 @@ ASSUME = [
 ]
 RULE = ("cases from random.Random(seed): (A) structure_factor_mean on noise / wave / droplet fields, d = 1-3, stretched by "
         "s in {1/32..32} (rel 1e-9), field scaling and rolling; (B) droplet_detection on rendered emulsions, d = 1-3, "
-        "= (V/n)^(1/d) with n from locate_droplets (rel 1e-12), stretching, rolling, positive field scaling with a relative "
-        "threshold; probes on cylindrical / polar / spherical grids; (C) structure_factor_maximum on plane waves with >= 4 "
+        "= (V/n)^(1/d) with n from locate_droplets (rel 1e-12), stretching, rolling, positive field scaling under the relative "
+        "thresholds extrema / mean / otsu (exact); probes: cylindrical / polar / spherical grids (F16), absolute "
+        "threshold and negative factor (F18); (C) structure_factor_maximum on plane waves with >= 4 "
         "cells per period at spacings 10^-3..10^3 (finite, within half a Fourier bin) with default smoothing (failures that "
         "depend on the unit of length are the known finding F7) and with explicit unit-consistent widths 0.25 and 0.5 "
         "bins at power-of-two stretches (covariance within 1e-3 bin); general fields with a unique highest mode (runner-up at another wave "
@@ -155,14 +156,48 @@ def prop_count(c: dict, rng: random.Random) -> list[dict]:
     if not rel_close(Lr, L, 1e-9):
         fails.append({"what": "droplet_detection changes under a periodic translation", "method": "droplet_detection",
                       "input": sc.canon(c), "shift": sh, "got": Lr, "want": L})
-    # field scaling: the default threshold is an absolute level (documented), so only a relative threshold can be invariant
+    # field scaling: exact invariance for positive factors under the relative threshold rules (the absolute default
+    # threshold and negative factors are the known finding F18, probed separately)
     cc = rng.choice([0.4, 2.0, 1e3])
-    L0 = gls(f, "droplet_detection", threshold="extrema")
-    Lc = gls(ScalarField(f.grid, cc * f.data), "droplet_detection", threshold="extrema")
-    if not (rel_close(Lc, L0, 1e-12) or (math.isinf(Lc) and math.isinf(L0))):
-        fails.append({"what": "droplet_detection (threshold='extrema') changes when the field is multiplied by a positive constant",
-                      "method": "droplet_detection", "input": sc.canon(c), "factor": cc, "got": Lc, "want": L0})
+    for thr in ("extrema", "mean", "otsu"):
+        L0 = gls(f, "droplet_detection", threshold=thr)
+        Lc = gls(ScalarField(f.grid, cc * f.data), "droplet_detection", threshold=thr)
+        if not (rel_close(Lc, L0, 1e-12) or (math.isinf(Lc) and math.isinf(L0))):
+            fails.append({"what": f"droplet_detection (threshold='{thr}') changes when the field is multiplied by a "
+                                  "positive constant", "method": "droplet_detection", "input": sc.canon(c), "factor": cc,
+                          "threshold": thr, "got": sc.json_safe(Lc), "want": sc.json_safe(L0)})
+            break
     return fails
+
+
+def probe_field_scaling(ctx) -> None:
+    """droplet_detection under field scaling with an absolute threshold / a negative factor (known finding F18)"""
+    from pde import CartesianGrid, ScalarField
+    from droplets import DiffuseDroplet, Emulsion
+    g = CartesianGrid([(0, 32), (0, 32)], [32, 32], periodic=True)
+    f = Emulsion([DiffuseDroplet([8, 8], 4, 1), DiffuseDroplet([24, 20], 5, 1)]).get_phasefield(g)
+    text = ("Emulsion([DiffuseDroplet([8,8],4,1), DiffuseDroplet([24,20],5,1)]) on CartesianGrid([(0,32),(0,32)],[32,32],"
+            "periodic=True)")
+    printed = False
+    for cond, factor, kw in (("absolute (numeric/default) threshold", 0.4, {}),
+                             ("negative factor", -1.0, {"threshold": "extrema"})):
+        inp = {"field": text, "factor": factor, "kwargs": kw}
+        ctx.case(["droplet_detection", "field scaling probe", inp])
+        ctx.count("method", "droplet_detection/field-scaling probe")
+        L0 = gls(f, "droplet_detection", **kw)
+        Lc = gls(ScalarField(g, factor * f.data), "droplet_detection", **kw)
+        if rel_close(Lc, L0, 1e-12):
+            continue
+        ent = sc.known_entry("C17", "get_length_scale", "droplet_detection", "not invariant under field scaling",
+                             condition=cond)
+        if ent is None:
+            ctx.violations.append({"what": "droplet_detection changes when the field is multiplied by a constant",
+                                   "method": "droplet_detection", "input": inp, "got": sc.json_safe(Lc),
+                                   "want": sc.json_safe(L0), "found": True})
+        elif not printed:
+            ctx.known_printed.append(f"droplet_detection is not invariant under field scaling ({cond}): {text}: "
+                                     f"{L0:.6g}, field * {factor:g} -> {Lc:.6g}")
+            printed = True
 
 
 def probe_noncartesian(ctx) -> None:
@@ -399,8 +434,8 @@ def check(ctx: vlib.Ctx) -> int:
     corr_bad: list[str] = []
     known_f7: list[str] = []
     # (A) moment method
-    for i in range(boost * ctx.scale(30, 150)):
-        c = sc.gen_case(rng)
+    for i in range(boost * ctx.scale(60, 400)):
+        c = sc.gen_case(rng, big=(not ctx.quick and i % 4 == 3))
         if float(np.ptp(sc.build(c))) == 0.0:
             continue
         ctx.case(["structure_factor_mean", sc.canon(c)])
@@ -413,7 +448,7 @@ def check(ctx: vlib.Ctx) -> int:
         if gen_ok:
             corr_bad.extend(corr_mean(c, py, consts))
     # (B) droplet counting
-    for i in range(boost * ctx.scale(20, 100)):
+    for i in range(boost * ctx.scale(40, 250)):
         c = gen_emulsion_case(rng)
         ctx.case(["droplet_detection", sc.canon(c)])
         ctx.count("method", "droplet_detection")
@@ -423,9 +458,10 @@ def check(ctx: vlib.Ctx) -> int:
             ctx.sample({"method": "droplet_detection", **sc.canon(c)})
         failures.extend(prop_count(c, rng))
     probe_noncartesian(ctx)
+    probe_field_scaling(ctx)
     # (C) peak method
     decades = DECADES if ctx.quick else sorted(DECADES + [-2.5, -1.5, -0.5, 0.5, 1.5, 2.5])
-    for i in range(boost * ctx.scale(12, 60)):
+    for i in range(boost * ctx.scale(24, 120)):
         w = gen_wave_case(rng, first=(i == 0))
         ctx.case([PEAK, "plane wave", sc.canon(w)])
         ctx.count("method", PEAK + "/plane wave")
@@ -434,7 +470,7 @@ def check(ctx: vlib.Ctx) -> int:
         if i == 0:
             ctx.sample({"method": PEAK, **sc.canon(w), "spacings": [10.0 ** e for e in decades]})
         failures.extend(prop_peak_wave(w, decades, ctx, known_f7))
-    for i in range(boost * ctx.scale(10, 50)):
+    for i in range(boost * ctx.scale(20, 120)):
         c = sc.gen_case(rng, kind=rng.choice(["noise", "waves", "droplets"]), min_n=4)
         if float(np.ptp(sc.build(c))) == 0.0:
             continue
@@ -451,9 +487,6 @@ def check(ctx: vlib.Ctx) -> int:
         ctx.known_printed.append("structure_factor_maximum with default smoothing is not scale covariant: " + known_f7[0]
                                  + (f" (+{len(known_f7) - 1} more inputs of this class)" if len(known_f7) > 1 else ""))
     ctx.extra["known_finding_inputs"] = known_f7[:20]
-    ctx.notes.append("droplet_detection with the default absolute threshold is not invariant under field scaling "
-                     "(e.g. 0.4 * field: no droplet above 0.5 -> inf; -1 * field: inf); checked for positive factors "
-                     "with threshold='extrema' only (property-text scoping, reported to the lead)")
     if corr_bad:
         ctx.broken.append(f"correspondence get_length_scale: {corr_bad[0]} (+{len(corr_bad) - 1} more)")
     seen = set()
